@@ -34,7 +34,10 @@ CAN = {
     "ok2": "b2" * 8 + "5ec0de02" * 6,
     "nonhex": "zq" * 8 + "5ec0dezz" * 6,
     "malformed": "c3" * 8 + "5ec0de04" * 6,
+    "stale": "zs" * 8 + "5ec0dest" * 6,        # non-hex key material left in the store by an earlier version
+    "ok3": "d4" * 8 + "5ec0de05" * 6,
 }
+G += ["c12c12c1-0001-4000-8000-00000000000%d" % i for i in range(6, 9)]
 
 
 def renderings(c):
@@ -113,6 +116,21 @@ def run(c):
     steps += [plan("POST /secure-channel/key", 200, '{"authorizationScheme": "Azure-HMAC-SHA256", "key": "%s", "guid": 7}' % CAN["malformed"]),
               plan("GET /secure-channel/status", 200, status_doc(G[3])), {"op": "sleep", "ms": 500},
               {"op": "key_state", "tag": "malformed"}] + traffic("t4") + [{"op": "mark", "tag": "phase:malformed"}]
+    # a key file left by an earlier run/version holds key material that is not hex; the host names that key
+    keys_dir = os.path.join(d0, "keys")
+    steps += [{"op": "write_file", "path": os.path.join(keys_dir, G[5] + ".key"), "text": json.dumps(key_doc(G[5], CAN["stale"]))},
+              plan("GET /secure-channel/status", 200, status_doc(G[5])), {"op": "sleep", "ms": 400},
+              {"op": "key_state", "tag": "stale"}] + traffic("t6") + [{"op": "mark", "tag": "phase:stale"}]
+    # ... and a damaged (truncated) key file
+    steps += [{"op": "write_file", "path": os.path.join(keys_dir, G[6] + ".key"), "text": json.dumps(key_doc(G[6], CAN["stale"]))[:150]},
+              plan("POST /secure-channel/key", 500, "no key for you", "text/plain"),
+              plan("GET /secure-channel/status", 200, status_doc(G[6])), {"op": "sleep", "ms": 300},
+              {"op": "mark", "tag": "phase:damaged"}]
+    # the key directory disappears while the agent runs, then the host rotates the key
+    steps += [{"op": "remove_dir", "path": keys_dir},
+              plan("POST /secure-channel/key", 200, key_doc(G[7], CAN["ok3"])),
+              plan("GET /secure-channel/status", 200, status_doc(G[7])), {"op": "sleep", "ms": 500},
+              {"op": "key_state", "tag": "dirgone"}] + traffic("t7") + [{"op": "mark", "tag": "phase:dirgone"}]
     # host errors, then disable
     steps += [plan("GET /secure-channel/status", 500, "internal error é" * 50, "text/plain"), {"op": "sleep", "ms": 200},
               plan("GET /secure-channel/status", 200, status_doc(None, enabled=False)), {"op": "sleep", "ms": 400},
@@ -196,6 +214,7 @@ def run(c):
             fs_rows.append({"e": "fs", "op": "create", "mode": "file"})
     if not any(r["op"] == "create" for r in fs_rows):
         raise util.ToolError("strace saw no file creation in the key directory")
+    c.extra["key_dir_exists_at_end"] = os.path.isdir(keydir)
     c.extra["fs_events"] = len(fs_rows)
     c.extra["sinks_scanned"] = len(rows)
     c.sample({"fs_order": [r["op"] + ":" + r["mode"] for r in fs_rows[:6]], "sinks": sorted({r["sink"] for r in rows})})
